@@ -27,7 +27,7 @@ def main():
     # destination of the demo file and the package to test
     demofile = [f for f in os.listdir(out) if f.endswith(".go")][0]
     m = re.search(r"cp\s+\S*" + re.escape(demofile) + r"\s+(\S+)", demo)
-    dest = m.group(1)
+    dest = m.group(1).rstrip(";")
     if not dest.startswith("/"):
         dest = os.path.join(wt, dest)
     if dest.endswith("/") or not dest.endswith(".go"):
